@@ -78,6 +78,7 @@ structure DState where
   lstates : List (String × LState) := []
   ldata   : List (String × List (List Rat)) := []
   lcoef   : List (String × Int) := []
+  polys   : List (String × List (Rat × List Nat)) := []
 
 def stepIdx (st : DState) (cmd : String) (args : List String) : DState × String :=
   match cmd, args with
@@ -214,12 +215,55 @@ def stepItp (st : DState) (cmd : String) (args : List String) : DState × String
       | none => (st, "bad-op")
   | _, _ => (st, "bad-op")
 
+def qpow (x : Rat) : Nat → Rat
+  | 0 => 1
+  | n + 1 => x * qpow x n
+
+/-- exact evaluation of a sparse polynomial Σ c · Π x_d^{k_d} and of its first / second partial derivatives -/
+def polyEval (p : List (Rat × List Nat)) (x : List Rat) : Rat :=
+  qsum (p.map fun (c, ks) => c * qprod ((List.range ks.length).map fun d => qpow (x.getD d 0) (ks.getD d 0)))
+
+def polyDiff (p : List (Rat × List Nat)) (k : Nat) : List (Rat × List Nat) :=
+  p.filterMap fun (c, ks) =>
+    let e := ks.getD k 0
+    if e = 0 then none else some (c * (e : Rat), ks.set k (e - 1))
+
+def stepPoly (st : DState) (cmd : String) (args : List String) : DState × String :=
+  let parts := splitBar args
+  match cmd, parts with
+  -- poly.set name | c k1 k2 .. ; c k1 k2 ..
+  | "poly.set", [[name], body] =>
+      let terms := (splitSemi body).mapM fun toks =>
+        match toks with
+        | c :: ks => do
+            let cq ← parseRat? c
+            let kn ← ks.mapM String.toNat?
+            some (cq, kn)
+        | [] => none
+      match terms with
+      | some t => ({ st with polys := upsert st.polys name t }, "ok")
+      | none => (st, "bad-op")
+  | "poly.eval", [[name], x] =>
+      match lookupS st.polys name, parseRats? x with
+      | some p, some xs => (st, showRat (polyEval p xs))
+      | _, _ => (st, "bad-op")
+  | "poly.grad", [[name, k], x] =>
+      match lookupS st.polys name, parseRats? x, k.toNat? with
+      | some p, some xs, some kk => (st, showRat (polyEval (polyDiff p kk) xs))
+      | _, _, _ => (st, "bad-op")
+  | "poly.hess", [[name, m, n], x] =>
+      match lookupS st.polys name, parseRats? x, m.toNat?, n.toNat? with
+      | some p, some xs, some mm, some nn => (st, showRat (polyEval (polyDiff (polyDiff p mm) nn) xs))
+      | _, _, _, _ => (st, "bad-op")
+  | _, _ => (st, "bad-op")
+
 def step (st : DState) (line : String) : DState × String :=
   match (line.trimAscii.toString.splitOn " ").filter (· ≠ "") with
   | [] => (st, "")
   | cmd :: args =>
       if cmd.startsWith "idx." then stepIdx st cmd args
       else if cmd.startsWith "itp." then stepItp st cmd args
+      else if cmd.startsWith "poly." then stepPoly st cmd args
       else (st, "bad-op")
 
 partial def loop (h : IO.FS.Stream) (out : IO.FS.Stream) (st : DState) : IO Unit := do
